@@ -639,6 +639,11 @@ func c18CheckWriterCore(p *Prog, r *Report, fn *ssa.Function, name string, cfg *
 		// A missing/failed link step is harmful only when a stale link of an earlier, crashed call can sit at
 		// the link path (then the rename publishes that one); if the path is removed first the rename just fails.
 		violate := func(msg string) {
+			if isLink && !removedFirst[o] {
+				// the outcome (stale link published / blocked forever / recovered) is decided by W3-leftover
+				r.Trivial(R.Order, construct, pos(o.Call), "link path not removed first: failure handling judged by "+R.Leftover)
+				return
+			}
 			if isLink && removedFirst[o] {
 				r.Note("%s: %s (not armed: the link path is removed first, so the rename then fails instead of publishing something else)", construct, msg)
 				r.Trivial(R.Order, construct, pos(o.Call), "NOTE only: "+msg)
@@ -651,12 +656,18 @@ func c18CheckWriterCore(p *Prog, r *Report, fn *ssa.Function, name string, cfg *
 			violate("the error result of " + o.Fn + " is discarded: when it fails the function goes on and renames a link to an incomplete (or missing, or stale) version directory over the target")
 			continue
 		case "used-otherwise":
+			if isLink && !removedFirst[o] {
+				violate("the error result of " + o.Fn + " is not tested against nil")
+				continue
+			}
 			r.Undecide("%s: the error result of %s is not tested against nil directly; shape not modelled", name, o.desc())
 			continue
 		}
 		if bit(mayAtPub, o.idx) {
 			// the failure edge reaches the publish. Tolerant shapes (errors.Is / os.IsExist on the failure path) are not judged.
-			if c18FailureIsInspected(o) {
+			if isLink {
+				violate("a path on which " + o.Fn + " failed still reaches the rename over the target")
+			} else if c18FailureIsInspected(o) {
 				r.Undecide("%s: a failure of %s is inspected (errors.Is/os.IsExist…) and may be tolerated; shape not modelled", name, o.desc())
 			} else {
 				violate("a path on which " + o.Fn + " failed still reaches the rename over the target: an incomplete (or stale) version directory gets published")
@@ -1011,12 +1022,21 @@ func c18CheckLeftovers(p *Prog, r *Report, fn *ssa.Function, name string, cfg *c
 			r.OK(R.Leftover, construct, at, "the path is removed on every path before it is created")
 			continue
 		}
-		if c18FailureIsInspected(o) {
-			r.OK(R.Leftover, construct, at, "the failure of the creation is inspected (EEXIST handling; recovery itself not analysed)")
-			continue
+		sa := c18StaleAnalysis(p, fn, o, ops)
+		blocked := o.Fn + " fails with EEXIST when " + want + " already exists, the path is the same on every call and nothing removes it first: a process that dies after this step and before the step that consumes the path (rename) leaves it behind, and every later Write — also from a fresh instance — returns \"file exists\" forever"
+		switch {
+		case sa.Opaque != "":
+			r.Undecide("%s: %s is created on a call-invariant path that is not removed first, and %s", name, o.desc(), sa.Opaque)
+		case sa.Readlink:
+			r.Undecide("%s: %s is created on a call-invariant path that is not removed first and the function reads a link back with os.Readlink: content comparison not modelled", name, o.desc())
+		case sa.StaleAtUse:
+			r.Violation(R.Leftover, construct, at,
+				"when "+want+" already exists (left by a call that died between this step and the rename) the failure of "+o.Fn+" is ignored/tolerated and the path is consumed as it is (rename at "+sa.Where+"): what gets renamed over the target is the STALE link, whose content is the crashed call's version directory — the recovering Write returns nil while the target shows the crashed call's (possibly incomplete) files instead of the new set, the new version directory is orphaned and prev names a directory the target does not resolve to. Tolerating EEXIST is not a substitute for removing the leftover first")
+		case sa.Recreated:
+			r.OK(R.Leftover, construct, at, "after a failed creation the link is created again successfully before the path is consumed")
+		default:
+			r.Violation(R.Leftover, construct, at, blocked)
 		}
-		r.Violation(R.Leftover, construct, at,
-			o.Fn+" fails with EEXIST when "+want+" already exists, the path is the same on every call and nothing removes it first: a process that dies after this step and before the step that consumes the path (rename) leaves it behind, and every later Write — also from a fresh instance — returns \"file exists\" forever")
 	}
 	return removedFirst
 }
